@@ -213,7 +213,9 @@ def run(ctx):
     ok = len(inc) == 1 and inc[0].v == "bus_errors + 1"
     if ok:
         G = q.gformula(fxc, inc[0])
-        ok = B.entails(G, B.A("self.bus_error")) and B.depends_on(G, "bus_errors == 2 ** len(bus_errors) - 1")
+        # exactly: every cycle in which the error pulse is high is counted, until the counter saturates (two pulses in consecutive
+        # cycles -- the write and the read watchdog of an AXI bus -- are two errors)
+        ok = B.equivalent(q.Inliner(fxc, inc[0]).inline(G), B.And(B.A("self.bus_error"), B.Not(B.A("bus_errors == 2 ** len(bus_errors) - 1"))))
     ctx.ob("T5", SOC, "SoCController", "bus_errors increments on bus_error and saturates", ok,
            "" if ok else f"{[(a.v, a.gtext()) for a in inc]}", inc[0].line if inc else 0)
     st = fxc.find(domain="comb", target="self._bus_errors.status")
